@@ -382,7 +382,11 @@ func zzC11Stateless() {
 	req := &http.Request{Method: method, Header: http.Header{}}
 	req.Header.Set("Accept", "application/json, text/event-stream")
 	req.Header.Set("Content-Type", "application/json")
-	if pv := []string{"", protocolVersion20250326, protocolVersion20251125, protocolVersion20260728}[vChoice("versionHeader", 4)]; pv != "" {
+	// ... including revisions this SDK has never heard of: one from the legacy era (refused by the handler: there is no
+	// JSON-RPC answer it could give) and one newer than 2026-07-28, which has to reach the session layer because that is
+	// where the unsupported-version answer (-32022 with the supported list) is produced (C06)
+	pv := []string{"", protocolVersion20250326, protocolVersion20251125, protocolVersion20260728, "2020-01-01", "2099-12-31"}[vChoice("versionHeader", 6)]
+	if pv != "" {
 		req.Header.Set(protocolVersionHeader, pv)
 	}
 	if vBool("sendsSessionID") {
@@ -394,13 +398,21 @@ func zzC11Stateless() {
 	}
 	w := &zzRec{hdr: http.Header{}}
 	h.ServeHTTP(w, req)
-	if method != http.MethodPost {
+	if pv == "2020-01-01" {
+		// checked before anything else, whatever the method
+		vAssert(w.code == http.StatusBadRequest && len(env.served) == 0 && env.connects == 0, "C12.precondition-violations-never-reach-a-session")
+		vReach("unknown-legacy-version")
+	} else if method != http.MethodPost {
 		vAssert(w.code == http.StatusMethodNotAllowed && w.hdr.Get("Allow") == "POST" && len(env.served) == 0, "C11.stateless-405")
 		vReach("405")
 	} else if !gateOK {
 		vAssert(w.code == gateStatus && len(env.served) == 0 && env.connects == 0, "C12.precondition-violations-never-reach-a-session")
 		vReach("gate-refused")
 	} else {
+		if pv == "2099-12-31" {
+			vAssert(len(env.served) == 1, "C06.unknown-future-version-reaches-the-layer-that-answers-32022")
+			vReach("unknown-future-version")
+		}
 		vAssert(len(env.served) == 1 && env.served[0].SessionID == "" && env.served[0].Stateless, "C11.stateless-no-session-id")
 		vAssert(env.minted == 0 && w.hdr.Get(sessionIDHeader) == "", "C11.stateless-no-session-id")
 		vReach("post")
